@@ -213,16 +213,11 @@ STATIC_OK = {
 }
 
 
-def run_static_storage(tier="quick", seed=0):
-    """[supporting static fact, syntactic] Shared mutable state of const operations can only live in objects with static storage duration,
-    `mutable` members or `thread_local`s.  Every header of the library is scanned for such declarations (non-constexpr `static` variables
-    with an initialiser, `mutable`, `thread_local`); each one found must be on the reviewed list above.  This is what covers the code that
-    irsx cannot execute (fit_impl.hpp, reparameterize_impl.hpp, manifolds/vector.hpp, optim.hpp): a new static or mutable object there
-    is reported as an unreviewed source of shared state."""
+def scan_static_storage(only=None):
+    """[(relative file, line, kind, variable name, code)] for every non-constexpr static variable with an initialiser, `mutable` member and
+    `thread_local` object in the headers (optionally restricted to the relative paths in `only`)"""
     import os
     import re
-    res = Results(PROP)
-    tag = PROP + "/static-storage"
     root = "/repo/include/smooth"
     found = []
     for dp, dn, fns in os.walk(root):
@@ -230,6 +225,8 @@ def run_static_storage(tier="quick", seed=0):
             if not fn.endswith(".hpp"):
                 continue
             rel = os.path.relpath(os.path.join(dp, fn), root)
+            if only is not None and rel not in only:
+                continue
             txt = open(os.path.join(dp, fn)).read()
             txt = re.sub(r"/\*.*?\*/", lambda m: "\n" * m.group(0).count("\n"), txt, flags=re.S)
             for ln, line in enumerate(txt.split("\n"), 1):
@@ -241,6 +238,18 @@ def run_static_storage(tier="quick", seed=0):
                     found.append((rel, ln, "mutable", "", code.strip()))
                 if re.search(r"\bthread_local\b", code):
                     found.append((rel, ln, "thread_local", "", code.strip()))
+    return found
+
+
+def run_static_storage(tier="quick", seed=0):
+    """[supporting static fact, syntactic] Shared mutable state of const operations can only live in objects with static storage duration,
+    `mutable` members or `thread_local`s.  Every header of the library is scanned for such declarations (non-constexpr `static` variables
+    with an initialiser, `mutable`, `thread_local`); each one found must be on the reviewed list above.  This is what covers the code that
+    irsx cannot execute (fit_impl.hpp, reparameterize_impl.hpp, manifolds/vector.hpp, optim.hpp): a new static or mutable object there
+    is reported as an unreviewed source of shared state."""
+    res = Results(PROP)
+    tag = PROP + "/static-storage"
+    found = scan_static_storage()
     res.functions.add("all headers under include/smooth (syntactic scan for static / mutable / thread_local storage)")
     seen_ok = set()
     for rel, ln, kind, name, code in found:
